@@ -126,11 +126,17 @@ def run(market_prices, cfg, universe_assets):
     pending = []
     fills, eq, allocs = [], [], []
     batches = []
+    bah_tod = None
     if kind == 'buy_and_hold':
         bd = d0
         while bd.weekday() > 4:
             bd += D.timedelta(days=1)
         sched = {bd}
+        # the single instant is the start rolled to a business day, at the start's own time of day; the session clock
+        # only has 14:30 and 21:00 events, so with any other time of day the instant is never reached: no rebalance
+        bah_tod = tuple(cfg['start'][3:])
+        if bah_tod not in ((14, 30, 0), (21, 0, 0)):
+            sched = set()
     else:
         wd = cal.WEEKDAYS.index(cfg['weekday'].upper()) if kind == 'weekly' else None
         sched = set(cal.schedule_dates(kind, d0, d1, wd))
@@ -170,13 +176,14 @@ def run(market_prices, cfg, universe_assets):
             batches.append((len(fills), len(batch), 'ordered'))
         for a, n in batch:
             fill(d, a, n)
-        if kind == 'buy_and_hold' and d in sched:
+        if kind == 'buy_and_hold' and d in sched and bah_tod == (14, 30, 0):
             orders = size(d, 0)
             batches.append((len(fills), len(orders), 'multiset'))
             for a, n in orders:
                 fill(d, a, n)
         E = cash + sum(F(market_prices[a][d][1]) * n for a, n in hold.items())
-        if kind != 'buy_and_hold' and d in sched:
+        if d in sched and (kind != 'buy_and_hold' or bah_tod == (21, 0, 0)):
+            # (a buy-and-hold start stamped 21:00 is that day's close: sized there, filled at the next open)
             pending = size(d, 1)
         eq.append((d, float(E)))
     return {'fills': fills, 'cash': cash, 'holdings': dict(hold), 'equity': eq, 'allocations': allocs,
